@@ -6,6 +6,6 @@ CONSTANTS
   MaxRestarts = 1000
   BugStaleFlag = FALSE
   KindChoices <- OneChain
-  Depth = 400
+  Depth = 480
 INVARIANT Emit
 CHECK_DEADLOCK FALSE
